@@ -8,6 +8,8 @@ CONSTANTS
   MakeModes <- OnlyFalse
   MaxFaults = 1
   AsBuiltD8 = FALSE
+  SigOnMake <- SigNever
+  Hoisted = FALSE
   GenMode = FALSE
   GenLen = 0
 INVARIANTS TypeOK C07_OkIffSignal C07_InflightCompletes C07_ToldAtMostOnce C07_OpenToldAndClosed C07_IdleCloses C07_NoNewService C09_EndsOnlyOnAllowed C09_EndCauseConsistent C09_OthersServed
